@@ -1,11 +1,95 @@
 (* C11 -- the collection tree stays a consistent forest under any history.
-   Statements only; every proof is `exact <lemma>`. *)
+   Statements only; every proof is `exact <lemma>`.
+
+   Model: Model/ForestModel.v (a store of objects indexed by creation order; `step` mirrors, with
+   the order of effects and exits of the Python code, BaseCollection.add / remove / the four list
+   setters / __init__, BaseGeo.parent / __add__ / copy).  `repaired` is the semantics of the code
+   as it is now (add validates the whole argument list incl. duplicates before mutating; the list
+   setters refresh the typed views before the tail add; remove looks every child up in the
+   current tree) - the harness probes on every run that this is the variant in force.
+   `step` returns the state AND the outcome (Ok | ErrBad | ErrOther): the theorems speak about the
+   state after EVERY operation, rejected ones included. *)
 From Coq Require Import List Bool Arith.
-From MV Require Import Model.ForestModel Model.ForestExec Proofs.ForestInv.
+From MV Require Import Model.ForestModel Model.ForestExec Proofs.ForestInv Proofs.ForestBase
+  Proofs.ForestRm Proofs.ForestMain.
 Import ListNotations.
 
-(* magpylib 5.1.1 semantics: the invariant does NOT survive a call rejected part-way *)
+(* Inv s (Proofs/ForestInv.v) =
+     every parent is a collection of the store that lists the object exactly once
+   /\ every listed child is a live object whose parent is the lister (so: at most one parent)
+   /\ only collections have children
+   /\ no object is its own ancestor
+   /\ sources/sensors/collections are the ordered typed filters of children. *)
+
+(* the main theorem: after every prefix of every history, whatever the outcomes *)
+Theorem C11_forest_invariant : forall (h : list op) (k : nat),
+  Inv (run repaired [] (firstn k h)).
+Proof. exact forest_invariant. Qed.
+Print Assumptions C11_forest_invariant.
+
+(* one operation, any outcome, from any consistent state *)
+Theorem C11_step_invariant : forall (s : state) (o : op),
+  Inv s -> Inv (fst (step repaired s o)).
+Proof. exact step_inv. Qed.
+Print Assumptions C11_step_invariant.
+
+(* at most one parent *)
+Theorem C11_one_parent : forall (h : list op) (x p q : nat),
+  let s := run repaired [] h in
+  In x (children (get s p)) -> In x (children (get s q)) -> p = q.
+Proof. exact one_parent_run. Qed.
+Print Assumptions C11_one_parent.
+
+(* no collection contains itself directly or indirectly *)
+Theorem C11_no_self_containment : forall (h : list op) (c d : nat),
+  ~ below (run repaired [] h) d c c.
+Proof. exact no_self_containment_run. Qed.
+Print Assumptions C11_no_self_containment.
+
+(* the *_all views are the pre-order flattening of the subtree and its ordered typed filters
+   (Flat is the fuel-free flattening relation; the model's flattening is fuel-bounded, the
+   theorem shows that the fuel never runs out) *)
+Theorem C11_all_views : forall (h : list op) (c : nat),
+  let s := run repaired [] h in
+  exists r, Flat s (children (get s c)) r /\ children_all s c = r /\
+            sources_all s c = filter (is_k KSource s) r /\
+            sensors_all s c = filter (is_k KSensor s) r /\
+            collections_all s c = filter (is_k KColl s) r.
+Proof. exact all_views_run. Qed.
+Print Assumptions C11_all_views.
+
+(* non-vacuity: a history that builds a tree, contains a call rejected at its second argument
+   (outcome ErrBad) and leaves the first argument untouched *)
+Example C11_nonvacuous :
+  let h := [NewObj KSensor; NewObj KSource; Ctor [0; 1] false; NewObj KColl] in
+  let s := run repaired [] h in
+  snd (step repaired s (Add 3 [2; 0] false)) = ErrBad /\
+  children (get s 2) = [0; 1] /\
+  parent (get (fst (step repaired s (Add 3 [2; 0] false))) 2) = None /\
+  parent (get (fst (step repaired s (Add 3 [2; 0] true))) 0) = Some 3.
+Proof. vm_compute. repeat split. Qed.
+
+(* ---- machine-checked record of the defects that were repaired in /repo --------------------- *)
+(* magpylib 5.1.1 (all three defects): the invariant does not survive a call rejected part-way *)
 Theorem C11_forest_invariant_refuted :
   exists h : list op, Inv [] /\ ~ Inv (run current [] h).
 Proof. exact forest_invariant_current_refuted. Qed.
 Print Assumptions C11_forest_invariant_refuted.
+
+(* add without up-front validation (5d3ec84 reverted) *)
+Theorem C11_add_refuted :
+  exists h : list op, Inv [] /\ ~ Inv (run (mkVariant false true true) [] h).
+Proof. exact add_variant_refuted. Qed.
+Print Assumptions C11_add_refuted.
+
+(* list setters without the refresh (6c169e0 reverted) *)
+Theorem C11_views_refuted :
+  exists h : list op, Inv [] /\ ~ Inv (run (mkVariant true false true) [] h).
+Proof. exact setter_variant_refuted. Qed.
+Print Assumptions C11_views_refuted.
+
+(* remove with a membership list computed once (e5b2c21 reverted) *)
+Theorem C11_remove_refuted :
+  exists h : list op, Inv [] /\ ~ Inv (run (mkVariant true true false) [] h).
+Proof. exact remove_variant_refuted. Qed.
+Print Assumptions C11_remove_refuted.
